@@ -155,10 +155,8 @@ def _model_for(sim, rng):
         spec = W.gen_model_spec(rng, str(rng.choice(["HEM", "MERTON", "VG", "CGMY"])), exp=bool(rng.integers(2)))
         return spec
     cm = W.gen_copula_model_spec(rng, dim=2, kind=str(rng.choice(["clayton", "independent"])))
+    W.limit_variation(rng, cm, allow_infinite=bool(rng.random() < 0.3), y_hi=0.7)
     for ms in cm["margins"]:
-        if ms["family"] == "CGMY" and ms["params"]["y"] >= 1.0:
-            ms["params"]["y"] = 0.5
-            ms["branch"] = "0<y<1"
         if ms["family"] == "MERTON":
             ms["params"]["sigma_j"] = max(ms["params"]["sigma_j"], 0.08)
         if ms["family"] in ("HEM", "MERTON"):
